@@ -174,6 +174,15 @@ fn main() {
         sv::model::exec::CompileOutcome::Panicked(e) => println!("panicked: {:?}", e),
       }
     }
+    "emitart" => {
+      // dev: emitart <artifact.json> : print emitted TypeScript of an artifact
+      let art: serde_json::Value = serde_json::from_str(&std::fs::read_to_string(&args[1]).unwrap()).unwrap();
+      let art = art.get("artifact").cloned().unwrap_or(art);
+      let (mods, entry) = sv::props::run_common::mods_of(&art);
+      if let sv::model::exec::CompileOutcome::Ok(c) = sv::model::exec::compile(&mods, &entry) {
+        println!("{}", c.ts_code);
+      }
+    }
     "runart" => {
       // dev: runart <artifact.json> : compile and run both backends with timing
       let art: serde_json::Value = serde_json::from_str(&std::fs::read_to_string(&args[1]).unwrap()).unwrap();
